@@ -63,7 +63,7 @@ Real(u, vp) == UCfg[u].base \o vp
 (* Session records *)
 
 \* c0: the working directory at the instant the command line was read (where its path conditions are evaluated)
-NoH == [v |-> "", a |-> NoArg, x |-> "", n |-> 0, pc |-> "", port |-> 0, prio |-> 0, viewed |-> {}, failed |-> FALSE, c0 |-> <<>>]
+NoH == [v |-> "", a |-> NoArg, x |-> "", n |-> 0, pc |-> "", port |-> 0, prio |-> 0, viewed |-> {}, failed |-> FALSE, c0 |-> <<>>, u0 |-> ""]
 NoW == [v |-> "", p |-> NoPath, st |-> "", off |-> 0, sock |-> FALSE, fopen |-> FALSE, fdone |-> FALSE,
         seeked |-> FALSE, pos |-> 0, dl |-> 0, listed |-> FALSE, had |-> FALSE, ub |-> "", mv |-> FALSE]
 
@@ -129,7 +129,7 @@ SendLine(s, t, v, a, x, n) ==
   /\ \/ /\ r.h = NoH
         /\ \E rst \in (IF v \in KnownVerbs \ TransferVerbs THEN {0}
                        ELSE IF v \in TransferVerbs THEN {r.rest} ELSE {0, r.rest}) :
-             Upd(s, [r EXCEPT !.h = [NoH EXCEPT !.v = v, !.a = a, !.x = x, !.n = IF v \in TransferVerbs THEN r.rest ELSE n, !.c0 = r.cwd],
+             Upd(s, [r EXCEPT !.h = [NoH EXCEPT !.v = v, !.a = a, !.x = x, !.n = IF v \in TransferVerbs THEN r.rest ELSE n, !.c0 = r.cwd, !.u0 = r.user],
                               !.line = t, !.rest = rst,
                               !.ab = IF r.ab = "done" THEN "" ELSE @])
      \/ \* ABOR arriving while the handler of the previous command is still running
@@ -137,8 +137,10 @@ SendLine(s, t, v, a, x, n) ==
         /\ Upd(s, [r EXCEPT !.ab = "pend", !.line = t, !.rest = 0])
      \/ \* pipelining: a command that touches neither the tree nor the login arrives while the handler of the previous
         \* (non-transfer) command is still suspended in the backend; it is handled at once and may overtake it
-        /\ r.h # NoH /\ r.h.v \in OvertakenVerbs /\ r.h2 = NoH /\ r.ab = "" /\ v \in OvertakingVerbs
-        /\ Upd(s, [r EXCEPT !.h2 = [NoH EXCEPT !.v = v, !.a = a, !.x = x, !.n = n, !.c0 = r.cwd], !.line = t, !.rest = 0])
+        /\ r.h # NoH /\ r.h2 = NoH /\ r.ab = ""
+        /\ \/ r.h.v \in OvertakenVerbs /\ v \in OvertakingVerbs
+           \/ r.h.v = "pass" /\ v = "user"      \* USER again while the password is still being checked (a user manager that awaits)
+        /\ Upd(s, [r EXCEPT !.h2 = [NoH EXCEPT !.v = v, !.a = a, !.x = x, !.n = n, !.c0 = r.cwd, !.u0 = r.user], !.line = t, !.rest = 0])
   /\ UNCHANGED <<tree, uused, used, pool, table, srv>>
 
 \* A line the server cannot decode or that exceeds the stream limit: the session ends (nothing else may happen)
@@ -259,7 +261,9 @@ Outcomes(r, t) ==
                       IF NeedsPw(u) THEN {Out(<<"331">>, r2, uu2, used)}
                       ELSE {Out(<<"230">>, [r2 EXCEPT !.logged = TRUE], uu2, used)}
     [] v = "pass" ->
-         IF r.user = "" THEN same(<<"503">>, r)
+         \* a password authorises only the account it was sent for: if USER was sent again meanwhile the PASS is out of sequence
+         IF r.h.u0 # r.user THEN same(<<"503">>, r) \cup same(<<"530">>, r)
+         ELSE IF r.user = "" THEN same(<<"503">>, r)
          ELSE IF r.logged THEN same(<<"503">>, r)
          ELSE IF UCfg[r.user].pw = r.h.x THEN same(<<"230">>, [r EXCEPT !.logged = TRUE])
          ELSE same(<<"530">>, r)
